@@ -227,7 +227,12 @@ class CheckpointMixin(ABC):
 
     def _save_solver_config(self) -> None:
         """Save the solver config to the checkpoint directory."""
-        OmegaConf.save(self.config, self.checkpoint_dir / "config.yaml")
+        # Write to a temporary file and rename it into place, so that a crash while
+        # an existing config is being rewritten cannot leave it empty or truncated
+        config_path = self.checkpoint_dir / "config.yaml"
+        tmp_path = self.checkpoint_dir / "config.yaml.tmp"
+        OmegaConf.save(self.config, tmp_path)
+        tmp_path.replace(config_path)
 
     @classmethod
     def _create_checkpoint_manager(
